@@ -47,6 +47,12 @@ def one_case(text):
     return cs[0] if len(cs) == 1 else None
 
 
+def case_citations(text):
+    from eyecite import get_citations
+    from eyecite.models import CaseCitation
+    return [c for c in get_citations(text) if isinstance(c, CaseCitation)]
+
+
 def key(c):
     from eyecite.models import (CaseCitation, FullCitation, IdCitation, UnknownCitation)
     if isinstance(c, (IdCitation, UnknownCitation)):
@@ -138,6 +144,10 @@ def db_pairs(spec, rec):
         c = one_case(ctx)
         if c is None:
             rec.count("variation_not_single_citation")
+            if not custom and one_case(core_v) is None and not case_citations(core_v):
+                # the database lists this spelling, the canonical spelling is recognised in the same form, and
+                # the variation yields no case citation at all: it cannot be "equal to the canonical spelling"
+                rec.violation("C16.variation_not_recognised", dict(canonical=en, variation=v, canonical_text=core_c, text=core_v))
             continue
         rec.ev()
         rec.count("db_pairs")
@@ -394,6 +404,9 @@ def replay(w, rec):
     elif "template_text" in c:
         a, b = one_case(c["template_text"]), one_case(c["plain_text"])
         if a is None or b is None or (a == b) != (key(a) == key(b)):
+            rec.violation(w["monitor"], c)
+    elif "variation" in c and "text" in c and "context" not in c:
+        if not case_citations(c["text"]) and one_case(c["canonical_text"]) is not None:
             rec.violation(w["monitor"], c)
     elif "context" in c:
         from eyecite.models import Resource
